@@ -31,8 +31,8 @@ def expected_nodes(spec, inst):
                         'defense': d, 'exist': e})
     return out
 
-def check_case(spec, inst, mo):
-    im = impl_generate(spec, inst, keep=True)
+def check_case(spec, inst, mo, churn_seed=None):
+    im = impl_generate(spec, inst, keep=True, churn=None if churn_seed is None else random.Random(churn_seed), member_p=0.8)
     if 'error' in im:
         return Violation(what='generation fails: ' + im['error'], fingerprint='C02:gen-error', replay={'spec': spec, 'inst': inst})
     lg, fac, m, g = im.pop('_objs')
@@ -80,7 +80,7 @@ def run(seed, tier, lean) -> Result:
     cases = []
     for i in range(n):
         r = random.Random(rnd.getrandbits(48))
-        spec = LangGen(r).gen()
+        spec = LangGen(r, knobs={'exist_w': 3}).gen()
         inst = gen_model(r, spec, colon_names=(i % 3 == 0))
         if i % 3 == 1:
             # names that collide after automatic renaming, unnamed assets, names that look like generated ones
@@ -107,7 +107,10 @@ def run(seed, tier, lean) -> Result:
         mo = model[i].get('model') if model is not None else None
         if model is not None and mo is None:
             res.violations.append(Violation(what='driver rejected a case', fingerprint='C02:driver-error', replay={'spec': spec, 'inst': inst}, no_failing_input=True)); continue
-        v = check_case(spec, inst, mo)
+        # a third of the cases: model built larger, one generation, extras removed through the API, then the generation
+        # that is checked (what an earlier generation cached must not survive the removals)
+        v = check_case(spec, inst, mo, churn_seed=(seed * 1000003 + i) if i % 3 != 1 else None)
+        if v is not None and i % 3 != 1: v.replay['churn_seed'] = seed * 1000003 + i
         types = {a['type'] for a in inst['assets']}
         parents = {a['name']: a['superAsset'] for a in spec['assets']}
         if len(types) >= 2 and any(parents[t] for t in types): res.nontrivial.add(canon_hash([spec, inst]))
@@ -126,6 +129,6 @@ def run(seed, tier, lean) -> Result:
 
 def replay(path):
     r = json.load(open(path))
-    v = check_case(r['spec'], r['inst'], None)
+    v = check_case(r['spec'], r['inst'], None, churn_seed=r.get('churn_seed'))
     print(v.what if v else 'no violation'); print('VIOLATION reproduced' if v else 'not reproduced')
     return 1 if v else 0
